@@ -44,6 +44,11 @@ func __ghost(name string) int                            { return 0 }
 func __ghostset(name string, f func() int)               {}
 func __lastsent[T any](ch chan T) (r T)                  { return }
 func __sentcount[T any](ch chan T) int                   { return 0 }
+func __assert(label string, f func() bool)               {}
+func __forallkeys[K comparable, V any](m map[K]V, f func(K) bool) bool { return true }
+func __haskey[K comparable, V any](m map[K]V, k K) bool  { _, ok := m[k]; return ok }
+func __visited(k any) bool                               { return true }
+func __forallcells[T any](f func(T) bool) bool           { return true }
 `
 }
 
@@ -84,6 +89,46 @@ func collectLoops(body *ast.BlockStmt) []ast.Stmt {
 	})
 	sort.Slice(loops, func(i, j int) bool { return loops[i].Pos() < loops[j].Pos() })
 	return loops
+}
+
+// stmtContaining: the first (in source order) innermost statement of a block
+// list whose source text contains frag.
+func stmtContaining(body *ast.BlockStmt, src []byte, off func(token.Pos) int, frag string) ast.Stmt {
+	var found ast.Stmt
+	var visitList func(list []ast.Stmt)
+	visitList = func(list []ast.Stmt) {
+		for _, s := range list {
+			if found != nil {
+				return
+			}
+			if !strings.Contains(string(src[off(s.Pos()):off(s.End())]), frag) {
+				continue
+			}
+			// prefer a nested statement
+			ast.Inspect(s, func(n ast.Node) bool {
+				if found != nil {
+					return false
+				}
+				switch b := n.(type) {
+				case *ast.BlockStmt:
+					if n != ast.Node(s) {
+						visitList(b.List)
+					}
+				case *ast.CaseClause:
+					visitList(b.Body)
+				case *ast.CommClause:
+					visitList(b.Body)
+				}
+				return found == nil
+			})
+			if found == nil {
+				found = s
+			}
+			return
+		}
+	}
+	visitList(body.List)
+	return found
 }
 
 func loopBody(s ast.Stmt) *ast.BlockStmt {
@@ -236,6 +281,18 @@ func buildOverlay(pkgDir string) (*OverlayResult, error) {
 				fmt.Fprintf(&sb, " __flag(%q, %q);", k, c.Flags[k])
 			}
 			ins = append(ins, insertion{off(fd.Body.Lbrace) + 1, sb.String()})
+			for _, a := range c.Asserts {
+				at := stmtContaining(fd.Body, src, off, a.After)
+				if at == nil {
+					res.Problems = append(res.Problems, fmt.Sprintf("contract-target-missing: assert %s of %s: no statement contains %q", a.Label, c.Key, a.After))
+					continue
+				}
+				if a.Before {
+					ins = append(ins, insertion{off(at.Pos()), fmt.Sprintf("__assert(%s, func() bool { return %s }); ", quoteLabel(a.Label), specToGo(a.Text, resultName))})
+					continue
+				}
+				ins = append(ins, insertion{off(at.End()), fmt.Sprintf("; __assert(%s, func() bool { return %s });", quoteLabel(a.Label), specToGo(a.Text, resultName))})
+			}
 			loops := collectLoops(fd.Body)
 			if len(c.LoopInv) > 0 || len(c.LoopDec) > 0 {
 				for n, l := range loops {
@@ -278,7 +335,7 @@ func buildOverlay(pkgDir string) (*OverlayResult, error) {
 		if len(ins) == 0 {
 			continue
 		}
-		sort.Slice(ins, func(i, j int) bool { return ins[i].off < ins[j].off })
+		sort.SliceStable(ins, func(i, j int) bool { return ins[i].off < ins[j].off })
 		var out []byte
 		prev := 0
 		for _, in := range ins {
